@@ -1,4 +1,5 @@
 let () =
   match Array.to_list Sys.argv with
   | _ :: "enc" :: _ -> D_enc.run ()
+  | _ :: "hashfn" :: _ -> D_hashfn.run ()
   | _ -> prerr_endline "usage: driver <area> < ops"; exit 2
